@@ -20,7 +20,7 @@ ALLOWED_AXIOMS = {
     "Classical_Prop.classic": "excluded middle (Coq stdlib)",
     "Eqdep.Eq_rect_eq.eq_rect_eq": "Streicher K (Coq stdlib)",
 }
-FORBIDDEN = re.compile(r"\b(Admitted|admit|Axiom|Axioms|Parameter|Parameters|Conjecture|Conjectures|Hypothesis|Hypotheses)\b"
+FORBIDDEN = re.compile(r"\b(Admitted|admit|give_up|Axiom|Axioms|Parameter|Parameters|Conjecture|Conjectures|Hypothesis|Hypotheses|Variable|Variables|Context)\b"
                        r"|Unset\s+Guard|bypass_check|type-in-type|impredicative-set|Admit\s+Obligations")
 
 
@@ -88,11 +88,12 @@ def forbidden_tokens():
             text = open(path).read()
             text_nc = _strip_comments(text)
             for m in FORBIDDEN.finditer(text_nc):
-                # Hypothesis/Variable inside a Section are allowed (they become premises); we forbid them only
-                # outside sections, which we approximate by requiring them to appear inside a Section ... End block
-                if m.group(1) in ("Hypothesis", "Hypotheses", "Parameter", "Parameters") and _inside_section(text_nc, m.start()):
-                    if m.group(1) in ("Hypothesis", "Hypotheses"):
-                        continue
+                # Hypothesis / Variable / Context inside a Section are premises of the closed theorem; outside a
+                # section they would declare axioms
+                if m.group(1) in ("Hypothesis", "Hypotheses", "Variable", "Variables", "Context") and _inside_section(text_nc, m.start()):
+                    continue
+                if m.group(1) is None and False:
+                    continue
                 hits.append("%s: %s" % (os.path.relpath(path, VERIF), m.group(0)))
     return hits
 
@@ -201,4 +202,44 @@ def _check_props(pid):
     res["ok"] = not res["bad_axioms"] and not missing and len(printed) > 0
     if missing:
         res["log"] += "\nPrint Assumptions output missing for %s" % missing
+    return res
+
+
+CHK_ALLOWED = {
+    "Coq.Logic.FunctionalExtensionality.functional_extensionality_dep",
+    "Coq.Reals.ClassicalDedekindReals.sig_not_dec",
+    "Coq.Reals.ClassicalDedekindReals.sig_forall_dec",
+    "Coq.Logic.Classical_Prop.classic",            # loaded with the Reals library (Rtrigo etc.), not used by our theorems
+    "Coq.Logic.Eqdep.Eq_rect_eq.eq_rect_eq",
+    "Coq.Logic.ProofIrrelevance.proof_irrelevance",
+    "Coq.Logic.ClassicalEpsilon.constructive_indefinite_description",
+    "Coq.Logic.PropExtensionality.propositional_extensionality",
+}
+
+
+def coqchk(pid):
+    """thorough tier: re-check the compiled Props file and everything it depends on with the independent checker;
+    cached by source digest like check_props"""
+    import json
+    cdir = os.path.join(WORK, "props-cache")
+    key = os.path.join(cdir, "chk-%s-%s.json" % (pid, _sources_digest()))
+    if os.environ.get("OSV_NO_PROOF_CACHE") != "1" and os.path.exists(key):
+        return json.load(open(key))
+    t0 = time.time()
+    cmd = ["timeout", "3000", "coqchk", "-silent", "-o", "-Q", "theories", "OSV", "OSV.Props.%s" % pid]
+    p = subprocess.run(cmd, cwd=COQ, capture_output=True, text=True)
+    out = p.stdout + p.stderr
+    res = {"cmd": "cd coq && " + " ".join(cmd[2:]), "rc": p.returncode, "wall_s": round(time.time() - t0, 1), "axioms": [], "ok": False,
+           "tail": out[-1500:]}
+    if p.returncode == 0 and "CONTEXT SUMMARY" in out:
+        summ = out[out.index("CONTEXT SUMMARY"):]
+        m = re.search(r"\* Axioms:(.*?)\n\s*\n\* Constants", summ, re.S)
+        ax = [x.strip() for x in (m.group(1) if m else "").split("\n") if x.strip() and x.strip() != "<none>"]
+        res["axioms"] = ax
+        clean = all(re.search(r"%s: <none>" % re.escape(lbl), summ) for lbl in (
+            "relying on type-in-type", "relying on unsafe (co)fixpoints", "whose positivity is assumed"))
+        res["ok"] = clean and all(a in CHK_ALLOWED for a in ax)
+    if res["ok"]:
+        os.makedirs(cdir, exist_ok=True)
+        json.dump(res, open(key, "w"))
     return res
